@@ -6,7 +6,7 @@ def engine_checks(case, eng):
     out = []
     for r in eng["results"]:
         # (k<K> is not an interruption: no limit is set and only the clock jumps; the run must stay complete)
-        if case["group"] == "cut" and "k" not in r.get("spec", "") and r.get("cut", -1) >= 0 and len(r.get("writes", [])) > r["cut"]:
+        if case["group"] in ("cut", "cutx") and "k" not in r.get("spec", "") and r.get("cut", -1) >= 0 and len(r.get("writes", [])) > r["cut"]:
             out.append({"spec": r.get("spec"), "writes_before_cut": r["cut"], "writes_total": len(r["writes"]),
                         "first_write_after_cut": r["writes"][r["cut"]],
                         "why": "cache write made after the search had been interrupted (stop or clock at that leaf)"})
@@ -37,14 +37,14 @@ def run(ctx):
     if r:
         full = {}
         for c, e in zip(r["cases"], r["engine"]):
-            if c["group"] in ("cut-full", "budget-probe") and e["results"] and not e["results"][0].get("panic"):
-                full[(c["group"] == "cut-full", c["fen"], tuple(c["moves"]), c["depth"])] = [w[:6] for w in e["results"][0]["writes"]]
+            if c["group"] in ("cut-full", "budget-probe", "cutx-probe") and e["results"] and not e["results"][0].get("panic"):
+                full[(c["group"] != "budget-probe", c["fen"], tuple(c["moves"]), c["depth"])] = [w[:6] for w in e["results"][0]["writes"]]
         npre = nbad = 0
         for c, e in zip(r["cases"], r["engine"]):
-            if c["group"] not in ("cut", "budget") or not e["results"] or e["results"][0].get("panic"):
+            if c["group"] not in ("cut", "cutx", "budget") or not e["results"] or e["results"][0].get("panic"):
                 continue
             d = c.get("depth") or SP.S.parse_spec(c["specs"][0])[0]
-            f = full.get((c["group"] == "cut", c["fen"], tuple(c["moves"]), d))
+            f = full.get((c["group"] != "budget", c["fen"], tuple(c["moves"]), d))
             if f is None:
                 continue
             w = [x[:6] for x in e["results"][0]["writes"]]
@@ -69,7 +69,9 @@ def run(ctx):
                    "plus interruptions by stop, by the game clock and by movetime forced at the K-th leaf evaluation (K over a Fibonacci-like grid): "
                    "the engine reports which flag load / clock reading first saw the interruption (guarded counters LOADS/READS, clock skew), the model "
                    "is run with exactly that oracle and the complete write traces, node counts and outputs are compared; no cache write may follow the "
-                   "cut; and every interrupted trace must be an initial segment of the uninterrupted one (C13_prefix, on the engine itself)")
+                   "cut; and every interrupted trace must be an initial segment of the uninterrupted one (C13_prefix, on the engine itself); the last two "
+                   "also EXHAUSTIVELY over the cut point (clock / stop / movetime at every K-th leaf, strided above 400 per position) on tactical positions "
+                   "with checks at the horizon and captures pending")
     return SP.finish(prop, gate, violations, cov)
 
 
